@@ -127,6 +127,11 @@ def cases(tier):
             nbytes = cap * (2 if mode in ('kanji', 'hanzi') else 1)
             add(f'mode:{mode}:{T.version_name(v)}-{lv}:chars={cap}', [('b', nbytes)], 6 + max(v, 0) * 4, version=vkw(v), error=lv, mode=mode,
                 mask=(v + len(mode)) % (4 if v < 1 else 8), boost_error=False)
+    # H: every character-count-indicator width (Table 3): each mode in each version range, short content
+    for mode in ('numeric', 'alphanumeric', 'byte', 'kanji', 'hanzi'):
+        for v in (9, 10, 26, 27, 40):
+            nb = 4 if mode in ('kanji', 'hanzi') else 3
+            add(f'cci:{mode}:v{v}', [('b', nb)], 8 + v, version=v, error='H' if v > 20 else 'M', mode=mode, mask=(v + len(mode)) % 8, boost_error=False)
     # D: multi-part contents (where same-mode merging lives)
     lens = [(1, 1), (2, 1), (1, 2), (3, 2), (2, 3), (2, 2)] + ([(3, 3), (1, 3), (4, 2)] if tier == 'thorough' else [])
     for a, b in lens:
